@@ -451,6 +451,17 @@ func runC16(r *Run, rng *Rng, thorough bool) {
 					first := pr.run()
 					protos = append(protos, pr.proto())
 					results = append(results, first)
+					if strings.Contains(first, "but-with-string-escapes") {
+						fail("frame", fmt.Sprintf("DecodeClaimsFromJSON(%s): %s (the same document, its strings written with JSON escapes)", pr.json.Text(), first))
+					}
+					// a CBOR token declaring (key 265) a name that was registered is decoded with that registration's type
+					if pr.json == nil && pr.declared != "" && pr.declared != "!" {
+						if lp, isReg := registered[pr.declared]; isReg {
+							if _, okTag := lp.tag(); okTag && first != "impl=x" {
+								fail("registered-not-found", fmt.Sprintf("a CBOR token declaring the registered profile %q is decoded as %s", pr.declared, first))
+							}
+						}
+					}
 					if pr.json != nil {
 						for rep := 0; rep < 63; rep++ {
 							if again := pr.run(); again != first {
